@@ -84,3 +84,33 @@ for text, ops_, exact in [(t, o, True) for t, o in CORPUS] + [(t, o, False) for 
         c.ensures('documented-template', "[x.op_code.name for x in self._code_gen.program] == %r" % (ops_,))
     else:
         c.ensures('documented-template-in-order', "subseq(%r, [x.op_code.name for x in self._code_gen.program])" % (ops_,))
+
+
+# ---- round 9: what one text defined is unknown to the NEXT text compiled by the same Parser object (a memo of routine look-ups in
+#      the parser, say, survives Context.clear): the second text must be rejected with a line-numbered message, and accepted once it
+#      defines the routine itself.  Concrete texts through the real bodies.
+c = contract(P, 'define_then_call_in_next_text', serves=['C06', 'C17', 'C16'],
+             name='lemma:parse(text defining flash); parse(text calling flash) on one compiler [concrete, real bodies]', src='''
+def define_then_call_in_next_text(self):
+    first = self.parse('define flash begin hue 5 set all end\\nflash\\nassign y 3')
+    second = self.parse('hue 1\\nflash')
+    errors = self.get_errors()
+    third = self.parse('hue {y}')
+    errors3 = self.get_errors()
+    fourth = self.parse('define flash begin hue 6 end\\nflash')
+    return (first, second, errors, third, errors3, fourth, self.get_errors())
+''')
+def _setup2(b, case):
+    pr = b.new(('bardolph.parser.parse', 'Parser'))
+    rt = b.I.load_module('bardolph.runtime.i_runtime').ns['Runtime']
+    lib.provide(b, rt, Opaque('runtime', {'get_fns': lambda I_, o, a, k: PyDict()}))
+    return {'self': pr}
+c.setup(_setup2)
+c.no_loop_cuts = True
+c.real_bodies_only = True
+c.crosscheck = False
+c.bounded('four concrete texts on one Parser object')
+c.ensures('first-text-accepted', 'result[0] is True')
+c.ensures('a-routine-of-the-previous-text-is-unknown', "not result[1] and 'Line 2' in result[2]")
+c.ensures('a-variable-of-an-earlier-text-is-unknown', "not result[3] and 'Line 1' in result[4]")
+c.ensures('accepted-when-the-text-defines-it-itself', "result[5] is True and result[6] == ''")
